@@ -406,7 +406,7 @@ def run_check(prop: str, tier: str) -> int:
             total['samples'] = [{'history': hs[len(hs) // 2]}, {'history': hs[-1]}]
             bfs_info = {'depth_completed': len(layer_sizes) - 1, 'layer_sizes': layer_sizes,
                         'frontier_left': len(frontier)}
-        else:
+        if hasattr(mod, 'shards'):
             shards = list(mod.shards(tier))
             order = list(range(len(shards)))
             rng.shuffle(order)
@@ -422,7 +422,7 @@ def run_check(prop: str, tier: str) -> int:
                 total['viol_count'].update(r['viol_count'])
                 total['violations'].extend(r['violations'])
                 total['digests'].extend(r['digests'])
-                if len(total['samples']) < 4 and r['samples']:
+                if len(total['samples']) < 6 and r['samples']:
                     total['samples'].append(r['samples'][-1])
 
     if errors:
@@ -476,7 +476,7 @@ def run_check(prop: str, tier: str) -> int:
             'states': max(1, total['nodes']), 'transitions': max(1, total['edges']),
             'traces_validated_against_impl': total['executions'],
             'evaluations': total['executions'], 'distinct_nontrivial': total['nontrivial'],
-            'rule': getattr(mod, 'RULE', ''), 'samples': total['samples'][:4] or [{}],
+            'rule': getattr(mod, 'RULE', ''), 'samples': total['samples'][:6] or [{}],
             'exhaustive': True, 'bounds': mod.bounds(tier) if hasattr(mod, 'bounds') else {},
             'outcome_histogram': dict(sorted(total['outcomes'].items())),
             'violation_signatures': dict(sorted(total['viol_count'].items())),
